@@ -50,6 +50,14 @@ PLAN = {
         note="'never hanging' is reduced to the bounded-count statement (each expiry consumes one retry); real time is not modelled (virtual clock stubs "
              "for embassy_time_driver); known findings C06-U1..U5",
     ),
+    "C07": dict(
+        verus=["group_cycle"], kani=[], level="proof",
+        claim="leaf functions of the process-data cycle, verbatim (Verus, unbounded): push_state_checks pushes exactly k = min(devices left, floor(free/14), 129) "
+              "FPRD(AlStatus, 2 bytes) datagrams for the next k SubDevices in group order and never fails; process_received_pdi_chunk copies the response "
+              "into exactly the input part of this chunk's range and leaves every other byte of the image (all outputs) unchanged, Err iff the datagram is too short",
+        note="CreatedFrame is seen through its push contract (decided by the C04 check); the chunk loops of tx_rx / tx_rx_sync_system_time / tx_rx_dc "
+             "(tiling, termination, counter sum) are NOT yet under contract - the claim is narrowed to the leaves (DESIGN.md C07 fallback)",
+    ),
     "C18": dict(
         verus=["dc_arith"], kani=[], level="proof",
         claim="the two arithmetic fragments, verbatim from configure_dc_sync and tx_rx_dc (Verus, unbounded): SYNC0 start time is a multiple of the period in "
